@@ -301,6 +301,11 @@ def events_of(m, st, mdl, events, idx):
     return out
 
 
+def disc_int(x):
+    if isinstance(x.disc, int): return x.disc
+    raise Inconclusive('symbolic discriminant in an observation')
+
+
 def as_text(x):
     from msx.contracts import as_str
     if isinstance(x, tuple) and x and x[0] == 'ref': x = x[1]
@@ -332,8 +337,15 @@ def observe(m, J, st, root, tyname, spec, what, mf):
         nxt = []
         for s, raw in states:
             src = s.extra['root']
-            if w == 'source':
-                outs = api.call(m, s, '<%s as Source>::source' % tyname, [src])
+            if w in ('source', 'rope', 'buffer', 'size'):
+                outs = api.call(m, s, '<%s as Source>::%s' % (tyname, w), [src])
+            elif w in ('writer', 'writerfail'):
+                from msx.textmodel import WriterV
+                lim = None
+                if w == 'writerfail':
+                    lim = IntV(z3.BitVec('wlimit', 64), 'usize'); s.pc.append(z3.ULE(zi(lim), text_len(spec) + 1))
+                wr = Ref(Cell(WriterV(lim))); s.extra['writer'] = wr
+                outs = api.call(m, s, '<%s as Source>::to_writer' % tyname, [src, wr])
             elif w.startswith('map'):
                 outs = api.call(m, s, '<%s as Source>::map' % tyname, [src, map_options(idx, w == 'map1', False)])
             else:
@@ -345,7 +357,11 @@ def observe(m, J, st, root, tyname, spec, what, mf):
                 if kind != 'ret':
                     J.fail_path(m, s2, 'C17: %s panics on a source tree in its domain: %r' % (w, v), lambda mdl: dict(mf(mdl), panic_in=w)); continue
                 r2 = dict(raw)
-                r2[w] = (list(s2.events), v) if not (w == 'source' or w.startswith('map')) else v
+                if w in ('writer', 'writerfail'):
+                    wv = sv(s2.extra['writer'])
+                    r2[w] = (StrV(tuple(wv.buf)), v, wv.limit)
+                else:
+                    r2[w] = (list(s2.events), v) if not (w in ('source', 'rope', 'buffer', 'size') or w.startswith('map')) else v
                 nxt.append((s2, r2))
         states = nxt
     return states
@@ -427,6 +443,19 @@ def finish(m, J, s, raw, spec, props, mf, depth=0, subs_raw=None, alt=None):
                 x = sv(val)
                 if isinstance(x, Enum): x = sv(x.payload[x.disc].f[0])
                 obs['source'] = det_text(m, s, mdl, as_str(x))
+            elif w in ('rope', 'buffer'):
+                x = sv(val)
+                if isinstance(x, Enum): x = sv(x.payload[disc_int(x)].f[0])
+                if isinstance(x, RopeV): x = x.flat()
+                if isinstance(x, Agg): x = StrV(tuple(b.e for b in x.f))
+                obs.setdefault('views', {})[w] = det_text(m, s, mdl, x)
+            elif w == 'size':
+                obs.setdefault('views', {})['size'] = det_int(m, s, mdl, val)
+            elif w == 'writer':
+                obs.setdefault('views', {})['writer'] = det_text(m, s, mdl, val[0])
+                if disc_int(val[1]) != 0: obs['views']['writer_err'] = True
+            elif w == 'writerfail':
+                obs.setdefault('views', {})['writerfail'] = {'written': det_text(m, s, mdl, val[0]), 'err': disc_int(val[1]) != 0, 'k': det_int(m, s, mdl, val[2])}
             elif w.startswith('map'):
                 obs['maps']['c' + w[3]] = source_map_of(m, s, mdl, val, idx)
             else:
@@ -484,14 +513,14 @@ def finish(m, J, s, raw, spec, props, mf, depth=0, subs_raw=None, alt=None):
     if len(J.samples) < 2: J.samples.append({'tree': obs['tree'], 'source': obs['source'], 'maps': obs['maps']})
 
 
-def tree_job(jid, tree, props=None, what=('source', 'c1f0', 'c0f0', 'c1f1', 'c0f1', 'map1', 'map0'), alphabet='q', flavour='mir', witnesses=(), subs=True, alt=None):
+def tree_job(jid, tree, props=None, what=('source', 'rope', 'buffer', 'size', 'writer', 'c1f0', 'c0f0', 'c1f1', 'c0f1', 'map1', 'map0'), alphabet='q', flavour='mir', witnesses=(), subs=True, alt=None):
     idx = api.load(flavour); m = api.machine(idx, loop_bound=64); J = Job(jid, m)
     st = State()
     sym = Sym(st, ALPHA[alphabet])
     root, spec = build(idx, sym, tree, m)
     if root is not None: st.extra['root'] = root if isinstance(root, Ref) else Ref(Cell(root))
     tyname = type_name(tree)
-    mf = lambda mdl: dict({'family': 'tree', 'tree': concretize_spec(mdl, spec), 'what': list(what)}, **({'alt': alt_name, 'alt_tree': concretize_spec(mdl, alt_spec[0])} if alt_spec else {}))
+    mf = lambda mdl: dict({'family': 'tree', 'tree': concretize_spec(mdl, spec), 'what': list(what), 'writer_limit': mval(mdl, z3.BitVec('wlimit', 64))}, **({'alt': alt_name, 'alt_tree': concretize_spec(mdl, alt_spec[0])} if alt_spec else {}))
     alt_spec = []; alt_name = alt
     want_subs = subs and (props is None or any(p in ('C06',) for p in props))
     if alt and (props is None or 'C13' in props):
